@@ -71,7 +71,11 @@ StopLine(e) ==
        THEN /\ phase = "new" /\ e.store = store /\ e.ts = ts      \* nothing is written
             /\ UNCHANGED <<store, ts>>
        ELSE /\ phase \in {"running", "failing"}
-            /\ \A b \in B : e.store[b] = (IF b \in pers THEN e.live[b] ELSE store[b])   \* all persistent blocks
+            \* all persistent blocks (live = their states when the stop began); block sev handled one
+            \* more event while the blocks were being stopped: with sync_state that state is saved too
+            /\ \A b \in B : e.store[b] = (IF b \notin pers THEN store[b]
+                                           ELSE IF b = e.sev /\ H(tid).blocks[b].sync THEN e.after[b]
+                                           ELSE e.live[b])
             /\ e.ts = e.t                                                            \* + the stop time stamp
             /\ store' = e.store /\ ts' = e.ts
     /\ hist' = Append(hist, Rec(e.store, e.ts)) /\ live' = e.live
